@@ -65,6 +65,42 @@ type Server struct {
 	BanList         BanMgr
 
 	MessageBoard io.ReadWriteSeeker
+
+	// The message board and the agreement each have a single read cursor.  boardMu / agreementMu make a
+	// whole seek-and-read sequence (and a post) one step, so concurrent clients each get the complete text.
+	boardMu     sync.Mutex
+	agreementMu sync.Mutex
+}
+
+// ReadMessageBoard returns the complete current message board.
+func (s *Server) ReadMessageBoard() ([]byte, error) {
+	s.boardMu.Lock()
+	defer s.boardMu.Unlock()
+
+	_, _ = s.MessageBoard.Seek(0, 0)
+
+	return io.ReadAll(s.MessageBoard)
+}
+
+// PostMessageBoard prepends a post to the message board.
+func (s *Server) PostMessageBoard(post []byte) error {
+	s.boardMu.Lock()
+	defer s.boardMu.Unlock()
+
+	_, err := s.MessageBoard.Write(post)
+
+	return err
+}
+
+// ReadAgreement returns the complete agreement text.
+func (s *Server) ReadAgreement() []byte {
+	s.agreementMu.Lock()
+	defer s.agreementMu.Unlock()
+
+	_, _ = s.Agreement.Seek(0, 0)
+	data, _ := io.ReadAll(s.Agreement)
+
+	return data
 }
 
 type Option = func(s *Server)
@@ -491,8 +527,7 @@ func (s *Server) handleNewConnection(ctx context.Context, rwc io.ReadWriteCloser
 			c.Server.outbox <- NewTransaction(TranShowAgreement, c.ID, NewField(FieldNoServerAgreement, []byte{1}))
 		}
 	} else {
-		_, _ = c.Server.Agreement.Seek(0, 0)
-		data, _ := io.ReadAll(c.Server.Agreement)
+		data := c.Server.ReadAgreement()
 
 		c.Server.outbox <- NewTransaction(TranShowAgreement, c.ID, NewField(FieldData, data))
 	}
